@@ -229,10 +229,13 @@ def install() -> None:
     for trait, (modname, clsname) in PASS_CLASSES.items():
         mod = importlib.import_module(modname)
         cls = getattr(mod, clsname)
-        orig_exec = cls.execute
+        # the traced function is looked up at call time, so that a counterfactual repair (vflib/repairs.py) of a whole
+        # pass can be put *inside* the tracer: the recorded stage is then the repaired one
+        cls._vf_inner_execute = cls.execute
 
-        def make(trait: str, orig_exec: Callable) -> Callable:
+        def make(trait: str, cls: Any) -> Callable:
             def execute(self: Any, prg: Any, *a: Any, **k: Any) -> Any:
+                orig_exec = cls._vf_inner_execute
                 rec = CURRENT
                 if rec is None:
                     return orig_exec(self, prg, *a, **k)
@@ -251,7 +254,7 @@ def install() -> None:
 
             return execute
 
-        cls.execute = make(trait, orig_exec)
+        cls.execute = make(trait, cls)
         orig_init = cls.__init__
 
         def make_init(trait: str, orig_init: Callable) -> Callable:
